@@ -224,6 +224,30 @@ def run_case(case):
             else:
                 R.ok("value-independent-of-other-requests")
 
+    # ---- 1b. numerically identical bin edges give identical values, however they are typed (Python ints, numpy ints, floats)
+    lo_i, hi_i = int(np.ceil(float(view.t[0]))), int(np.floor(float(view.t[-1])))
+    if hi_i - lo_i >= 1:
+        ints = list(range(lo_i, hi_i + 1))
+        if len(ints) > 3:
+            ints = [ints[0], ints[len(ints) // 2], ints[-1]]
+        for trial in range(3):
+            target = pool[int(rng.integers(0, len(pool)))]
+            tpop = popsel[int(rng.integers(0, len(popsel)))]
+            method_ = [None, "integrate", "average"][int(rng.integers(0, 3))]
+            try:
+                vf = series_of(call([target], [tpop], t_bins=[float(x) for x in ints], time_aggregation=method_), key_of(tpop), key_of(target))
+                vi = series_of(call([target], [tpop], t_bins=list(ints), time_aggregation=method_), key_of(tpop), key_of(target))
+                vn = series_of(call([target], [tpop]).time_aggregate(np.array(ints, dtype=np.int64), time_aggregation=method_), key_of(tpop), key_of(target))
+            except Exception as e:
+                R.count("integer_bin_call_failed[%s]" % type(e).__name__)
+                continue
+            R.count("integer_typed_bin_edges_compared")
+            same = all(v is not None and vf is not None and v.shape == vf.shape and np.all((v == vf) | (np.isnan(v) & np.isnan(vf))) for v in (vi, vn))
+            if not same:
+                R.bad("value-independent-of-other-requests", "C20:value-depends-on-the-type-of-the-bin-edges[%s]" % method_, {"target": target, "pop": tpop, "edges": ints, "float_edges": None if vf is None else vf[:4].tolist(), "int_list": None if vi is None else vi[:4].tolist(), "int_array": None if vn is None else vn[:4].tolist()})
+            else:
+                R.ok("value-independent-of-other-requests")
+
     # ---- 2. additivity / betweenness ---------------------------------------------------------------------
     if len(ords) >= 2:
         a, b = ords[0], ords[1]
